@@ -12,6 +12,24 @@ ENCODINGS = ("utf-8", "latin-1", "cp1252")
 TARGETS = ("path.txt", "path.gz", "path.bz2", "path.gzip", "fileobj", "bytesio")
 
 
+# documented defaults of the readers / writers: an argument that equals its default may be left out
+READ_DEFAULTS = dict(comments="#", directed=False, delimiter=None, nodetype=None, encoding="utf-8", keys=False)
+WRITE_DEFAULTS = dict(delimiter=" ", encoding="utf-8")
+
+
+def drop_defaults(rng, kw, defaults, ctx=None, p=0.5):
+    """leave out (each with probability p) the arguments whose value is the documented default; `nodetype=str`
+    counts as the default when the file's ids are strings anyway (the reader yields strings)"""
+    out = dict(kw)
+    for k, v in list(out.items()):
+        if k in defaults and (v is defaults[k] or v == defaults[k] and type(v) is type(defaults[k])) \
+                and rng.random() < p:
+            del out[k]
+            if ctx is not None:
+                ctx.cell("default-omitted:" + k)
+    return out
+
+
 def tmpdir():
     base = os.environ.get("DYNMON_TMP")
     return tempfile.mkdtemp(prefix="io-", dir=base if base and os.path.isdir(base) else None)
